@@ -6,8 +6,9 @@ import os
 VERIF = os.path.normpath(os.path.join(os.path.dirname(os.path.abspath(__file__)), ".."))
 
 NOTE_COMMON = ("Trusted base: Lean 4.33 kernel (axioms propext, Classical.choice, Quot.sound only; no sorry/native_decide/bv_decide); "
-               "harness/extract.py regenerates all tables/constants/literals from /repo on every run; the hand-written control-flow "
-               "model is tied to the Python code by a differential correspondence check (sampled, not proved). ")
+               "harness/extract.py regenerates all tables/constants/literals from /repo on every run and harness/pytrans.py translates 28 "
+               "function bodies, proved equal to the model (Props/*Gen.lean); the rest of the hand-written control-flow model is tied to the "
+               "Python code by a differential correspondence check (sampled, not proved). ")
 
 CHECKS = {
     "C03": dict(
@@ -219,10 +220,15 @@ CHECKS["C12"] = dict(
          "decoders): own_decoder_same_history; on a fresh AutoDecoder genuine Aidon, Kaifa and Kamstrup frames and P1 blocks are decoded by "
          "their own decoder (earlier decoders in cyclic order provably reject: array-vs-structure tag, an OBIS octet >= 0x80 defeats both "
          "Kaifa grammars, the ninth octet of ASCII text is no date-time start); message_eq_payload for HDLC and DLMS messages; empty payload "
-         "-> None. Correspondence: histories exhaustively to length 2 (3 thorough) over a 14-element pool and randomly to length 30, each "
+         "-> None. Bare bodies (Props/C12OwnBody.lean): fresh_k (generic), frame_decoders_reject (decoders 0-2 reject whenever octets 9.. do "
+         "not read as an APDU date-time followed by a list: predicate noApduStart), p1_decoder_rejects_control/_tag (after fix 74e2123 the P1 "
+         "payload decoder rejects every payload starting with the array/structure tag), own_aidon_body_fresh, own_kaifa_body_fresh_wf "
+         "(unconditional for the documented Kaifa lists), own_kaifa_obis_body_fresh_wf, own_kamstrup_body_fresh_wf/_version; every remaining "
+         "hypothesis carries a decide-checked witness that it is needed and a non-vacuity example. Correspondence: histories exhaustively to length 2 (3 thorough) over a 14-element pool and randomly to length 30, each "
          "step judged against the seven individual real decoders; own-decoder checks incl. bare bodies; decode_message vs payload.",
-    note=NOTE_COMMON + "Partial: 'own decoder on a FRESH AutoDecoder' is proved for frames and P1; for bare notification bodies it is "
-         "covered by the correspondence only (it depends on the first OBIS code of the list).",
+    note=NOTE_COMMON + "Partial: for bare Aidon / Kaifa-OBIS / Kamstrup bodies 'own decoder on a fresh AutoDecoder' is proved under the explicit "
+         "octet-level hypothesis noApduStart (lists whose first OBIS code makes octets 9.. read as a date-time + list start ARE taken by a frame "
+         "decoder: checked witnesses, behaviour of the real code, outside 'genuine' lists whose first element is the list-version id).",
     technique="Lean 4 proof (generic loop lemmas + concrete rejection lemmas) + history-exhaustive differential correspondence",
     design="5/C12")
 CHECKS["C15"] = dict(
